@@ -539,7 +539,10 @@ C02_THEOREMS = [P + t for t in ("range_check", "slice_eq_inRange", "find_informa
                                 "read_by_type_enumerate_all", "read_by_type_enumerate_uniform",
                                 "read_by_group_enumerate_all", "read_by_group_complete", "groupCut_prefix",
                                 # bridge: Db.SvcWF derived for the table of every declaration (DeclBridge.lean)
-                                "ofDecl_SvcWF", "length_table", "read_by_group_enumerate_all_decl")] + \
+                                "ofDecl_SvcWF", "length_table", "read_by_group_enumerate_all_decl",
+                                # the client's byte parser (ClientParse.lean): parse (encode items) = some items
+                                "chunks_roundtrip", "parse_encodeTuples", "parse_encodeAttrs", "parse_encodeGroups",
+                                "parse_encodeRanges")] + \
                [H + t for t in ("handles_strict_mono", "handles_nonzero", "first_index_count")]
 C02_WITNESSES = [P + t for t in ("find_information_skips_witness", "read_by_type_unreadable_witness", "read_by_type_128bit_witness",
                                  "t128_never_matches", "read_by_type_skips_witness",
@@ -559,9 +562,12 @@ C03_THEOREMS = [P + t for t in ("read_by_group_only_primary", "find_by_type_valu
                                 # the same over every server declaration (DeclBridge.lean): Db.SvcWF (ofDecl d) derived
                                 "ofDecl_SvcWF", "length_table", "render_readable", "read_by_group_complete_decl",
                                 "find_by_type_value_complete_decl", "primaries_sorted_decl",
-                                "read_by_group_enumerate_all_decl", "find_by_type_value_enumerate_all_decl")]
+                                "read_by_group_enumerate_all_decl", "find_by_type_value_enumerate_all_decl",
+                                # the client's byte parser, end to end over declarations (ClientParse.lean)
+                                "chunks_roundtrip", "parse_encodeRanges", "parse_encodeGroups", "serviceRanges_fit",
+                                "ofDecl_Fits", "client_find_by_type_value_decl")]
 IMPORTS = ["BluetoeModel.AttDiscovery.Props", "BluetoeModel.AttDiscovery.PropsEnum", "BluetoeModel.AttDiscovery.PropsGroup",
-           "BluetoeModel.AttDiscovery.PropsFind", "BluetoeModel.AttDiscovery.DeclBridge",
+           "BluetoeModel.AttDiscovery.PropsFind", "BluetoeModel.AttDiscovery.DeclBridge", "BluetoeModel.AttDiscovery.ClientParse",
            "BluetoeModel.AttHandles.Props"]
 
 PROPS = {
@@ -571,7 +577,7 @@ PROPS = {
         run=lambda ctx, replay_path=None: run(ctx, "C02"),
         level="proof",
         technique="Lean 4 proof over every strictly ascending attribute table (index interval = requested handle range; selection loops are sublists / prefixes of it; client sub-procedure loop proved complete against any prefix responder) + differential correspondence of the four discovery handlers with the real server<>::l2cap_input",
-        level_text="For the fixed handlers (fixes/attdisc-01..03), every well-formed table, start <= end, MTU >= 23: the index interval computed from the two handles is exactly the set of attributes with start <= handle <= end and never leaves the table; Find Information answers Attribute Not Found iff that set is empty and otherwise returns a sublist of it (in-range, ascending, own type) starting with its first element; Read By Type returns handles of in-range attributes of the requested type in ascending order and is never Attribute Not Found while a readable match exists; Read By Group Type returns only in-range services. Enumeration sentence: the client loop 'request, continue behind the last returned handle / end group handle, stop at an Error Response' is mechanised (clientLoop) over the modelled handlers (views proved byte-equal to the handlers) and proved to return exactly the matching attributes, each once, ascending, with at most end+1-start requests: for Read By Group Type unconditionally (read_by_group_enumerate_all; the handler stops at a UUID size change instead of skipping), for Find Information / Read By Type under the precise per-request no-skip condition (FindInformationNoSkip / ReadByTypeNoSkip = the selection loop returns a prefix) and hence for uniform UUID size / all matching values readable and of one length. Partial: the sentence is false for mixed UUID sizes, unreadable or differently sized matching values (find_information_enumerate_witness, read_by_type_enumerate_unreadable_witness, read_by_type_enumerate_size_witness; known findings) and 'not found only when none exists' fails for unreadable attributes and true 128-bit types. Not proved: the client's byte parser (the loop consumes the item list of which the response is proved to be the encoding); declarations whose last handle is 0xFFFF are outside the model (uint16 end_handle wraps) and are checked on the real code only: known findings C02:last-handle-0xffff:*.",
+        level_text="For the fixed handlers (fixes/attdisc-01..03), every well-formed table, start <= end, MTU >= 23: the index interval computed from the two handles is exactly the set of attributes with start <= handle <= end and never leaves the table; Find Information answers Attribute Not Found iff that set is empty and otherwise returns a sublist of it (in-range, ascending, own type) starting with its first element; Read By Type returns handles of in-range attributes of the requested type in ascending order and is never Attribute Not Found while a readable match exists; Read By Group Type returns only in-range services. Enumeration sentence: the client loop 'request, continue behind the last returned handle / end group handle, stop at an Error Response' is mechanised (clientLoop) over the modelled handlers (views proved byte-equal to the handlers) and proved to return exactly the matching attributes, each once, ascending, with at most end+1-start requests: for Read By Group Type unconditionally (read_by_group_enumerate_all; the handler stops at a UUID size change instead of skipping), for Find Information / Read By Type under the precise per-request no-skip condition (FindInformationNoSkip / ReadByTypeNoSkip = the selection loop returns a prefix) and hence for uniform UUID size / all matching values readable and of one length. Partial: the sentence is false for mixed UUID sizes, unreadable or differently sized matching values (find_information_enumerate_witness, read_by_type_enumerate_unreadable_witness, read_by_type_enumerate_size_witness; known findings) and 'not found only when none exists' fails for unreadable attributes and true 128-bit types. Client byte parser (ClientParse.lean): the record parsers for the four discovery responses are modelled and proved to be left inverses of the encoders for uniform record size and 16-bit handles (chunks_roundtrip; parse_encodeTuples / _Attrs / _Groups / _Ranges), so the item lists the loop consumes are what a client reads from the bytes; the composition handler bytes -> parser is stated end to end for Find By Type Value (client_find_by_type_value_decl, C03), for the other three it is the two theorems (view + parse) side by side. Declarations whose last handle is 0xFFFF are outside the model (uint16 end_handle wraps) and are checked on the real code only: known findings C02:last-handle-0xffff:*.",
         level_note="Trusted: Lean kernel + standard axioms; model = code as far as the differential check samples it (24 server types x boundary handle pairs x all present types x MTUs); write_128bit_uuid is modelled as 'the entry's UUID' (checked differentially); attribute values are static in the harness.",
         design_ref="§5 C02",
         assumptions=["fixes/attdisc-01-end-handle-in-gap, -03-read-by-type-0x0001 applied (the check reports a VIOLATION on the unpatched tree)",
@@ -583,7 +589,7 @@ PROPS = {
         run=lambda ctx, replay_path=None: run(ctx, "C03"),
         level="proof",
         technique="Lean 4 loop-invariant proof over every table and service list (every reported group is a declared service whose declaration attribute has type «Primary Service», in range, with its real last handle) + differential correspondence with the real handlers",
-        level_text="For the fixed handlers (fixes/attdisc-01, -02): every group in a Read By Group Type «Primary Service» response and every range in a Find By Type Value «Primary Service» response is, for every table, service list, range and MTU, a declared service whose declaration attribute has type 0x2800 (never a secondary service), lies in the requested range, carries the service's UUID / the requested UUID and ends at the handle of the service's last attribute (soundness). Completeness, Read By Group Type: for every table whose service list partitions it (Db.SvcWF), the response is exactly groupCut(MTU-2) of the declared primary services whose first handle is in range - a non-empty prefix ending only at a service UUID of the other size or when the MTU is used up, nothing skipped - and Attribute Not Found iff there is none (read_by_group_complete, groupCut_prefix, groupCut_head); the Discover All Primary Services loop returns every primary service in range exactly once, in order (read_by_group_enumerate_all). Completeness, Find By Type Value: for every such table, range, 2- or 16-byte value and MTU >= 23 the response is exactly the first (MTU-1)/4 of the declared primary services whose declaration value equals the requested value octet-wise and whose first handle is in range (serviceRanges; found handle = first handle, group end handle = handle of the service's last attribute) - a prefix cut only by the MTU, nothing skipped - and Attribute Not Found iff there is none (find_by_type_value_complete, _complete_bytes for the response bytes, serviceRanges_spec); the Discover Primary Service by Service UUID loop returns every matching primary service in range exactly once, in order (find_by_type_value_enumerate_all); the full statements hold, no input class had to be excluded (another attribute type / value length: Error Response, find_by_type_value_other_type / _other_length). Bridge to declarations: Db.SvcWF (ofDecl d) is derived for every server declaration d (ofDecl_SvcWF: number_of_attributes >= 1 per service, the per-service counts sum to the table length, every attribute rendered with type 0x2800 is readable) under the single decidable hypothesis NoFakePrimary d (no characteristic declared with value type 0x2800 AND an unreadable value - a declaration the library does not forbid, exFake), so the completeness and enumeration theorems hold for every declared server without include_service<> (read_by_group_complete_decl, find_by_type_value_complete_decl, *_enumerate_all_decl). Partial: the client's byte parser is not modelled; declarations whose last handle is 0xFFFF are outside the model: known findings C03:last-handle-0xffff:*.",
+        level_text="For the fixed handlers (fixes/attdisc-01, -02): every group in a Read By Group Type «Primary Service» response and every range in a Find By Type Value «Primary Service» response is, for every table, service list, range and MTU, a declared service whose declaration attribute has type 0x2800 (never a secondary service), lies in the requested range, carries the service's UUID / the requested UUID and ends at the handle of the service's last attribute (soundness). Completeness, Read By Group Type: for every table whose service list partitions it (Db.SvcWF), the response is exactly groupCut(MTU-2) of the declared primary services whose first handle is in range - a non-empty prefix ending only at a service UUID of the other size or when the MTU is used up, nothing skipped - and Attribute Not Found iff there is none (read_by_group_complete, groupCut_prefix, groupCut_head); the Discover All Primary Services loop returns every primary service in range exactly once, in order (read_by_group_enumerate_all). Completeness, Find By Type Value: for every such table, range, 2- or 16-byte value and MTU >= 23 the response is exactly the first (MTU-1)/4 of the declared primary services whose declaration value equals the requested value octet-wise and whose first handle is in range (serviceRanges; found handle = first handle, group end handle = handle of the service's last attribute) - a prefix cut only by the MTU, nothing skipped - and Attribute Not Found iff there is none (find_by_type_value_complete, _complete_bytes for the response bytes, serviceRanges_spec); the Discover Primary Service by Service UUID loop returns every matching primary service in range exactly once, in order (find_by_type_value_enumerate_all); the full statements hold, no input class had to be excluded (another attribute type / value length: Error Response, find_by_type_value_other_type / _other_length). Bridge to declarations: Db.SvcWF (ofDecl d) is derived for every server declaration d (ofDecl_SvcWF: number_of_attributes >= 1 per service, the per-service counts sum to the table length, every attribute rendered with type 0x2800 is readable) under the single decidable hypothesis NoFakePrimary d (no characteristic declared with value type 0x2800 AND an unreadable value - a declaration the library does not forbid, exFake), so the completeness and enumeration theorems hold for every declared server without include_service<> (read_by_group_complete_decl, find_by_type_value_complete_decl, *_enumerate_all_decl). Client byte parser (ClientParse.lean): the record parser every client runs over a Find By Type Value / Read By Group Type response is modelled (chunks: rejects a payload that is not a whole number of records) and proved to invert the encoders for every item list the handlers produce (parse_encodeRanges, parse_encodeGroups); client_find_by_type_value_decl composes handler bytes and parser for every declared server: parsing the answer yields exactly the first (MTU-1)/4 matching primary services in range, and nothing is parsed iff there is none. Partial: declarations whose last handle is 0xFFFF are outside the model: known findings C03:last-handle-0xffff:*.",
         level_note="Trusted: Lean kernel + standard axioms; model = code as far as the differential check samples it; the secondary_service<> struct form does not compile inside a server, only service<…, is_secondary_service> is in the family.",
         design_ref="§5 C03",
         assumptions=["fixes/attdisc-01-end-handle-in-gap and -02-secondary-services applied (the check reports a VIOLATION on the unpatched tree)"],
